@@ -13,6 +13,8 @@ package c18
 
 import (
 	"context"
+	"runtime"
+	"sync/atomic"
 	"encoding/binary"
 	"errors"
 	"fmt"
@@ -26,6 +28,7 @@ import (
 	"github.com/NethermindEth/juno/db/memory"
 	"github.com/NethermindEth/juno/migration"
 	"github.com/NethermindEth/juno/migration/blocktransactions"
+	"github.com/NethermindEth/juno/migration/historyprunner"
 	"github.com/NethermindEth/juno/migration/statedifflength"
 	"github.com/NethermindEth/juno/utils/log"
 	"verif/mc/ev"
@@ -41,10 +44,12 @@ func (noopMigration) Migrate(context.Context, db.KeyValueStore, *networks.Networ
 
 // prodRegistry mirrors node/migration.go (asserted by checkProductionRegistry) with the two optional
 // migrations disabled; fresh Migrator values per process start, like a real restart.
-func prodRegistry() *migration.Registry {
+// The history-prune slot holds the REAL migration/historyprunner migrator (retainedBlocks as --prune-mode would
+// configure it, no wall-clock floor); the head-state slot stays a disabled placeholder.
+func prodRegistry(prune bool, retained uint64) *migration.Registry {
 	return migration.NewRegistry().
 		With(&blocktransactions.Migrator{}).
-		WithOptional(noopMigration{}, false, "prune").
+		WithOptional(historyprunner.New(retained, 0), prune, "prune-mode").
 		WithOptional(noopMigration{}, false, "new-state").
 		With(&statedifflength.Migrator{})
 }
@@ -78,7 +83,13 @@ func isRangeStartHeader(key []byte) (uint64, bool) {
 }
 
 // execRun starts a fresh runner (= a process start) on a copy of img and drives it to the end.
-func execRun(t *testing.T, img *memory.Database, perm [4]int, in interrupt) (out runOut) {
+// startCfg: the optional flags of one process start.
+type startCfg struct {
+	Prune    bool
+	Retained uint64
+}
+
+func execRun(t *testing.T, img *memory.Database, cfg startCfg, perm [4]int, in interrupt) (out runOut) {
 	synctest.Test(t, func(t *testing.T) {
 		d := faultdb.Wrap(img.Copy())
 		d.SnapshotAll()
@@ -94,9 +105,10 @@ func execRun(t *testing.T, img *memory.Database, perm [4]int, in interrupt) (out
 			id, ok := isRangeStartHeader(key)
 			if ok {
 				id %= 4 // ranges of one pass are consecutive, so r%4 identifies them (<= 4 per pass here)
-			} else if len(key) == 9 && key[0] == byte(db.BlockCommitments) {
-				// statedifflength worker starting a block: parked too, so that the assignment of blocks to the
-				// per-worker batches (hence every crash image) is a function of the release policy, not of the scheduler
+			} else if len(key) == 9 && key[0] == byte(db.StateUpdatesByBlockNumber) {
+				// a statedifflength worker, or a stager / restorer worker of the history-prune migration, reading the
+				// state update of its block: parked too, so that the assignment of blocks to the per-worker batches
+				// (hence every crash image) is a function of the release policy, not of the scheduler
 				id, ok = 1000+binary.BigEndian.Uint64(key[1:]), true
 			}
 			if !ok {
@@ -124,7 +136,7 @@ func execRun(t *testing.T, img *memory.Database, perm [4]int, in interrupt) (out
 		case inCancelStart:
 			cancel()
 		}
-		r, err := migration.NewRunner(prodRegistry(), d, &networks.Mainnet, log.NewNopZapLogger())
+		r, err := migration.NewRunner(prodRegistry(cfg.Prune, cfg.Retained), d, &networks.Mainnet, log.NewNopZapLogger())
 		if err != nil {
 			out.newErr = err
 			return
@@ -197,6 +209,7 @@ func perms4() [][4]int {
 type shapeSpec struct {
 	Name   string
 	Shape  []int
+	PruneR int // >= 0: the --prune-mode flag is toggled between process starts, retaining PruneR blocks; -1: never enabled
 	Pruned int // blocks below are absent (statedifflength's pruned prefix); blocktransactions part is then already migrated
 }
 
@@ -234,27 +247,55 @@ type bCtx struct {
 	fin map[[32]byte]int
 }
 
+// cutoff: the block below which the history-prune migration deletes (pivot = min(L1 head, height) = tip here).
+func (sp shapeSpec) cutoff() int {
+	tip := len(sp.Shape) - 1
+	if sp.PruneR < 0 || tip < sp.PruneR {
+		return 0
+	}
+	return tip - sp.PruneR
+}
+
+// pruneView: which blocks must still be intact in an image and whether the by-hash lookups may be missing. Once the
+// prune flag was recorded (LastTargetVersion bit 1) the blocks below the cutoff may be gone; until its applied bit is
+// set the reverse-lookup buckets may be wiped (the migration rebuilds them at its end).
+func pruneView(sp shapeSpec, md migration.SchemaMetadata) (lower int, relax, done bool) {
+	lower = sp.Pruned
+	if sp.PruneR >= 0 && md.LastTargetVersion.Has(1) {
+		lower = max(lower, sp.cutoff())
+		done = md.CurrentVersion.Has(1)
+		relax = !done
+	}
+	return
+}
+
 // checkImage: invariants that must hold in EVERY durable image (crash images included).
 func (bc *bCtx) checkImage(sp shapeSpec, c *chain, img *memory.Database, trace string) {
 	md, err := migration.GetSchemaMetadata(img)
 	applied0 := err == nil && md.CurrentVersion.Has(0)
 	applied3 := err == nil && md.CurrentVersion.Has(3)
+	lower, relax, pruneDone := pruneView(sp, md)
 	if applied0 && oldLayoutRemains(img) {
 		bc.r.Violate("b/applied-bit-with-old-layout-data blocktransactions", map[string]any{"shape": sp.Name, "trace": trace})
 	}
 	if applied0 {
-		if msg := c.checkContent(img, sp.Pruned, false); msg != "" {
+		if msg := c.checkContentOpt(img, lower, false, relax); msg != "" {
 			bc.contentViolation("applied-bit-but-content-wrong blocktransactions", sp, c, trace, msg)
 		}
 	}
 	if applied3 {
-		if msg := c.checkSDL(img, sp.Pruned); msg != "" {
+		if msg := c.checkSDL(img, lower); msg != "" {
 			bc.contentViolation("applied-bit-but-content-wrong statedifflength", sp, c, trace, msg)
+		}
+	}
+	if pruneDone {
+		if msg := c.checkPruned(img, sp.cutoff()); msg != "" {
+			bc.r.Violate("b/applied-bit-but-content-wrong historyprunner", map[string]any{"shape": sp.Name, "trace": trace, "first_discrepancy": msg})
 		}
 	}
 	// no block may be lost at any time: a combined entry, when present, must hold the original content
 	// unless the block's legacy entries are still there.
-	if msg := c.noBlockLost(img, sp.Pruned); msg != "" {
+	if msg := c.noBlockLost(img, lower, relax); msg != "" {
 		bc.contentViolation("block-data-lost-in-durable-image", sp, c, trace, msg)
 	}
 }
@@ -298,17 +339,49 @@ func indexOf(s, sub string) int {
 }
 
 type bShape struct {
+	r        *ev.Run
 	sp       shapeSpec
 	c        *chain
 	mu       sync.Mutex
 	seen     map[[32]byte]bool
 	next     []imgState
-	refFinal [32]byte
-	haveRef  bool
+	refFinal map[bool][32]byte // one final image per chain and per 'prune applied'
 	images   int
 }
 
+// memory guard: the BFS frontiers hold database images; when the live heap passes memLimit the exploration stops
+// expanding (reported through r.Incomplete -> exhaustive:false) instead of being killed by the OS.
+const memLimit = 3 << 30
+
+var (
+	memAdds atomic.Int64
+	memFull atomic.Bool
+)
+
+func memGuard(r *ev.Run) bool {
+	if memFull.Load() {
+		return true
+	}
+	if memAdds.Add(1)%512 == 0 {
+		var ms runtime.MemStats
+		runtime.ReadMemStats(&ms)
+		if ms.HeapAlloc > memLimit {
+			runtime.GC()
+			runtime.ReadMemStats(&ms)
+			if ms.HeapAlloc > memLimit {
+				memFull.Store(true)
+				r.Incomplete(fmt.Sprintf("memory guard: live heap above %d MiB, no further images were added to the frontier", memLimit>>20))
+				return true
+			}
+		}
+	}
+	return false
+}
+
 func (sh *bShape) add(img *memory.Database, depth int, trace string) {
+	if memGuard(sh.r) {
+		return
+	}
 	h := faultdb.Hash(img)
 	sh.mu.Lock()
 	defer sh.mu.Unlock()
@@ -323,6 +396,7 @@ type bItem struct {
 	sh    *bShape
 	st    imgState
 	pm    [4]int
+	cfg   startCfg
 	first bool
 }
 
@@ -342,13 +416,13 @@ func exploreShapeGroup(bc *bCtx, specs []shapeSpec, permsL0, permsDeep [][4]int,
 	r, t := bc.r, bc.t
 	var shapes []*bShape
 	for _, sp := range specs {
-		sh := &bShape{sp: sp, c: mkChain(sp.Shape), seen: map[[32]byte]bool{}}
+		sh := &bShape{r: r, sp: sp, c: mkChain(sp.Shape), seen: map[[32]byte]bool{}, refFinal: map[bool][32]byte{}}
 		base := sh.c.oldLayoutDB(0)
 		if sp.Pruned > 0 {
 			// A pruned database cannot be in the per-transaction layout (pruning came later). Build it from the
 			// fully migrated image: drop the prefix the way the pruner leaves it, put back the pre-backfill
 			// commitments (StateDiffLength 0) and clear statedifflength's applied bit.
-			o := execRun(t, base, [4]int{0, 1, 2, 3}, interrupt{Kind: inNone})
+			o := execRun(t, base, startCfg{}, [4]int{0, 1, 2, 3}, interrupt{Kind: inNone})
 			if o.newErr != nil || o.runErr != nil {
 				r.Violate("b/uninterrupted-run-fails: "+errClass(o.newErr, o.runErr), map[string]any{"shape": sp.Name, "trace": "setup of pruned shape"})
 				continue
@@ -384,8 +458,14 @@ func exploreShapeGroup(bc *bCtx, specs []shapeSpec, permsL0, permsDeep [][4]int,
 				perms = permsL0
 			}
 			for _, st := range level {
-				for i, pm := range perms {
-					items = append(items, bItem{sh, st, pm, i == 0})
+				cfgs := []startCfg{{}}
+				if sh.sp.PruneR >= 0 { // every process start chooses the --prune-mode flag freely
+					cfgs = []startCfg{{false, uint64(sh.sp.PruneR)}, {true, uint64(sh.sp.PruneR)}}
+				}
+				for ci, cfg := range cfgs {
+					for i, pm := range perms {
+						items = append(items, bItem{sh, st, pm, cfg, i == 0 && ci == 0})
+					}
 				}
 			}
 		}
@@ -408,16 +488,41 @@ func exploreShapeGroup(bc *bCtx, specs []shapeSpec, permsL0, permsDeep [][4]int,
 
 func exploreItem(bc *bCtx, it bItem, maxDepth int, failInj bool) {
 	r, t := bc.r, bc.t
-	sh, st, pm, sp, c := it.sh, it.st, it.pm, it.sh.sp, it.sh.c
+	sh, st, pm, sp, c, cfg := it.sh, it.st, it.pm, it.sh.sp, it.sh.c, it.cfg
 	if it.first {
 		bc.checkImage(sp, c, st.img, st.trace)
 	}
+	runName := fmt.Sprintf("run(order=%v)", pm)
+	if sp.PruneR >= 0 {
+		runName = fmt.Sprintf("run(prune-mode=%v retain %d, order=%v)", cfg.Prune, cfg.Retained, pm)
+	}
+	want := migration.SchemaVersion(0b1001)
+	if cfg.Prune {
+		want = 0b1011
+	}
+	// 0. a start that switches off a previously recorded --prune-mode must be refused and must not write
+	if md0, err := migration.GetSchemaMetadata(st.img); err == nil && md0.LastTargetVersion.Has(1) && !cfg.Prune {
+		if !it.first && pm != [4]int{0, 1, 2, 3} {
+			return // the refusal does not depend on the commit order
+		}
+		o := execRun(t, st.img, cfg, pm, interrupt{Kind: inNone})
+		r.Add("evaluations", 1)
+		r.Add("b_runs", 1)
+		r.Add("transitions", 1)
+		if o.newErr == nil || o.d.Commits() != 0 {
+			r.Outcome("b: opt-out of recorded prune flag ACCEPTED")
+			r.Violate("b/opt-out-of-recorded-prune-flag-accepted", map[string]any{"shape": sp.Name, "trace": st.trace + " -> " + runName, "commits": o.d.Commits()})
+		} else {
+			r.Outcome("b: opt-out of recorded prune flag refused")
+		}
+		return
+	}
 	// 1. uninterrupted run: must complete and reach THE final image
-	o := execRun(t, st.img, pm, interrupt{Kind: inNone})
+	o := execRun(t, st.img, cfg, pm, interrupt{Kind: inNone})
 	r.Add("evaluations", 1)
 	r.Add("b_runs", 1)
 	r.Add("transitions", 1)
-	tr := fmt.Sprintf("%s -> run(order=%v)", st.trace, pm)
+	tr := fmt.Sprintf("%s -> %s", st.trace, runName)
 	if o.deadlock {
 		r.Infra("part b: schedule control deadlocked (%s %s)", sp.Name, tr)
 	}
@@ -429,20 +534,26 @@ func exploreItem(bc *bCtx, it bItem, maxDepth int, failInj bool) {
 	fin := o.d.Inner()
 	fh := faultdb.Hash(fin)
 	md, _ := migration.GetSchemaMetadata(fin)
-	if md.CurrentVersion != 0b1001 {
-		r.Violate("b/run-returned-nil-but-not-applied", map[string]any{"shape": sp.Name, "trace": tr, "version": md.CurrentVersion.String()})
+	if md.CurrentVersion != want {
+		r.Violate("b/run-returned-nil-but-not-applied", map[string]any{"shape": sp.Name, "trace": tr, "version": md.CurrentVersion.String(), "want": want.String()})
 	}
-	msg := c.checkContent(fin, sp.Pruned, true)
+	lower, _, pruneDone := pruneView(sp, md)
+	msg := c.checkContent(fin, lower, true)
+	if msg == "" && pruneDone {
+		if pm := c.checkPruned(fin, sp.cutoff()); pm != "" {
+			r.Violate("b/final-content-differs-from-original: history-prune result wrong", map[string]any{"shape": sp.Name, "trace": tr, "first_discrepancy": pm})
+		}
+	}
 	if msg != "" {
 		r.Outcome("b: final content wrong (" + classify(msg) + ")")
 		bc.contentViolation("final-content-differs-from-original (core.Get* accessors after a Run that returned nil)", sp, c, tr, msg)
 	} else {
 		r.Outcome("b: completed, content equal")
 		sh.mu.Lock()
-		if !sh.haveRef {
-			sh.refFinal, sh.haveRef = fh, true
+		if _, ok := sh.refFinal[cfg.Prune]; !ok {
+			sh.refFinal[cfg.Prune] = fh
 		}
-		same := fh == sh.refFinal
+		same := fh == sh.refFinal[cfg.Prune]
 		sh.mu.Unlock()
 		if !same {
 			r.Violate("b/final-image-depends-on-interruption-pattern", map[string]any{"shape": sp.Name, "trace": tr})
@@ -461,7 +572,7 @@ func exploreItem(bc *bCtx, it bItem, maxDepth int, failInj bool) {
 	}
 	// 2. crash after every commit of that run (the image becomes a new start state)
 	for k := 1; k < n; k++ {
-		sh.add(o.d.Image(k), st.depth+1, fmt.Sprintf("%s -> run(order=%v) crash-after-commit %d/%d", st.trace, pm, k, n))
+		sh.add(o.d.Image(k), st.depth+1, fmt.Sprintf("%s crash-after-commit %d/%d", tr, k, n))
 		r.Add("b_crash_images", 1)
 	}
 	// 3. cancellation at every commit and at every first read of an ingest range; 4. failed commit
@@ -479,11 +590,11 @@ func exploreItem(bc *bCtx, it bItem, maxDepth int, failInj bool) {
 	}
 	ev.Par(len(ins), 4, func(ii int) {
 		in := ins[ii]
-		oi := execRun(t, st.img, pm, in)
+		oi := execRun(t, st.img, cfg, pm, in)
 		r.Add("evaluations", 1)
 		r.Add("b_runs", 1)
 		r.Add("transitions", 1)
-		tri := fmt.Sprintf("%s -> run(order=%v) %s %d", st.trace, pm, in.Kind, in.K)
+		tri := fmt.Sprintf("%s %s %d", tr, in.Kind, in.K)
 		if oi.deadlock {
 			r.Infra("part b: schedule control deadlocked (%s %s)", sp.Name, tri)
 		}
@@ -495,7 +606,7 @@ func exploreItem(bc *bCtx, it bItem, maxDepth int, failInj bool) {
 		case oi.runErr == nil:
 			r.Outcome("b: " + in.Kind + " -> run completed anyway")
 			m2, _ := migration.GetSchemaMetadata(oi.d.Inner())
-			if m2.CurrentVersion != 0b1001 {
+			if m2.CurrentVersion != want {
 				r.Violate("b/run-returned-nil-but-not-applied", map[string]any{"shape": sp.Name, "trace": tri, "version": m2.CurrentVersion.String()})
 			}
 		case errors.Is(oi.runErr, context.Canceled):
@@ -531,7 +642,7 @@ func errClass(a, b error) string {
 }
 
 // noBlockLost: in any durable image each retained block's transactions are still present in one of the two layouts.
-func (c *chain) noBlockLost(img *memory.Database, pruned int) string {
+func (c *chain) noBlockLost(img *memory.Database, pruned int, relax bool) string {
 	kv := img.Impl().(map[string][]byte)
 	oldTx := map[uint64]int{}
 	for k := range kv {
@@ -545,7 +656,7 @@ func (c *chain) noBlockLost(img *memory.Database, pruned int) string {
 			continue
 		}
 		one := &chain{shape: c.shape, txs: c.txs, rcs: c.rcs, encTx: c.encTx, encRc: c.encRc}
-		if msg := one.checkBlock(img, b); msg != "" {
+		if msg := one.checkBlock(img, b, relax); msg != "" {
 			bad = append(bad, msg)
 		}
 	}
@@ -556,7 +667,7 @@ func (c *chain) noBlockLost(img *memory.Database, pruned int) string {
 	return ""
 }
 
-func (c *chain) checkBlock(r db.KeyValueReader, b int) string {
+func (c *chain) checkBlock(r db.KeyValueReader, b int, relax bool) string {
 	sub := &chain{shape: c.shape[:b+1], txs: c.txs, rcs: c.rcs, encTx: c.encTx, encRc: c.encRc}
-	return sub.checkContent(r, b, false)
+	return sub.checkContentOpt(r, b, false, relax)
 }
